@@ -350,9 +350,16 @@ def gen_chan_scn_c14c(rng, sid):
                 sc.bursts.append(lines)
         elif r < 0.85 and slow:
             # slow-consumer phase: the small-queue sessions (re)attach, their writers stall, the owner publishes
-            o = rng.choice(osess)
-            pre = ["q %d %s sub 1" % (o, nr())] if o not in gone else []
-            pre += ["q %d %s sub 1 0 as=%s" % (x, nr(), form(x, 0.25)) for x in slow if x not in gone and rng.random() < 0.8]
+            k = 2 if (plain and rng.random() < 0.3) else 1
+            if k == 1:
+                o = rng.choice(osess)
+            else:
+                o = rng.choice([x for x in sc.sessions if x not in slow] or osess)     # every user may publish in the plain group
+            pre = ["q %d %s sub %d" % (o, nr(), k)] if o not in gone else []
+            if k == 1:
+                pre += ["q %d %s sub 1 0 as=%s" % (x, nr(), form(x, 0.25)) for x in slow if x not in gone and rng.random() < 0.8]
+            else:
+                pre += ["q %d %s sub 2" % (x, nr()) for x in slow if x not in gone and rng.random() < 0.8]
             if pre:
                 sc.bursts.append(pre)
             lines = []
@@ -361,7 +368,7 @@ def gen_chan_scn_c14c(rng, sid):
                     lines.append("i stall %d" % x)
                     stalled.add(x)
             if o not in gone:
-                lines += ["q %d %s pub 1" % (o, nr()) for _ in range(rng.randint(3, 4))]
+                lines += ["q %d %s pub %d" % (o, nr(), k) for _ in range(rng.randint(3, 4))]
             if rng.random() < 0.4:
                 act = [x for x in non_owner if x not in gone and x not in slow and rng.random() < 0.5]
                 lines += [mix_request(x) for x in act]
